@@ -4101,10 +4101,12 @@ impl PrimitiveStructuralEncoder {
             .repetition_levels
             .as_ref()
             .map_or(0, |r| r.iter().max().copied().unwrap_or(0));
+        // If there are definition levels (even if they all happen to be 0, e.g. a validity
+        // bitmap without nulls) the layers describe them and so they must be written
         let max_def = repdef
             .definition_levels
             .as_ref()
-            .map_or(0, |d| d.iter().max().copied().unwrap_or(0));
+            .map_or(0, |d| d.iter().max().copied().unwrap_or(0).max(1));
 
         // To handle FSL we just flatten
         // let data = data.flatten();
